@@ -191,6 +191,10 @@ def call_impl(method, direction, f, Q, MN, shift, fresh=False, forms=None):
     """run the real transform; returns ndarray or raises"""
     ft, pr, config = _impl()
     Q, MN, shift = apply_forms(Q, MN, shift, forms)
+    if method == 'mdft_bp':
+        # gradient back-propagation entry points: same caches, same keys as dft2 / idft2; `MN` is the shape of the OTHER plane
+        ex = ft.MatrixDFTExecutor() if fresh else ft.mdft
+        return (ex.dft2_backprop if direction < 0 else ex.idft2_backprop)(f, Q, MN, shift)
     if method == 'mdft':
         ex = ft.MatrixDFTExecutor() if fresh else ft.mdft
         fn = ex.dft2 if direction < 0 else ex.idft2
@@ -200,9 +204,18 @@ def call_impl(method, direction, f, Q, MN, shift, fresh=False, forms=None):
     return fn(f, Q, MN, shift)
 
 
+def tol32(nmax):
+    """single precision: rounding of the chirps / bases grows ~linearly with the axis length (measured on the clean tree:
+    czt complex64 vs complex128 rel. error 2e-6 at n=64, 1e-5 at 256, 4.3e-5 at 1024, i.e. ~4e-8 n): 12x that, floor 5e-5"""
+    return max(TOL32, 5e-7 * nmax)
+
+
 def tol_for(case):
     lowp = case.get('precision', 64) == 32 or case.get('dtype') in ('float32', 'complex64')
-    return TOL32 if lowp else TOL64
+    if not lowp:
+        return TOL64
+    sizes = list(case.get('shape', [])) + list(case.get('samples', []))
+    return tol32(max(sizes) if sizes else 1)
 
 
 def close(a, b, tol):
@@ -222,11 +235,18 @@ def transform_case(ctx_rng, shape, big=False):
     r = ctx_rng
     m, n = shape
     Q = QS[int(r.integers(len(QS)))]
+    if r.random() < 0.5:          # random REAL Q (all digits random), scalar or per-axis, below and above 1
+        q = [float(np.exp(r.uniform(np.log(0.3), np.log(5.0)))) for _ in range(2)]
+        Q = q[0] if r.random() < 0.5 else (q[0], q[1])
     hi = 10 if not big else 26
     M, N = int(r.integers(1, hi + 1)), int(r.integers(1, hi + 1))
     if r.random() < 0.15:
         M, N = m, n
     shift = SHIFTS[int(r.integers(len(SHIFTS)))]
+    if r.random() < 0.4:          # random real shifts (one component may stay zero)
+        shift = (float(r.uniform(-4, 4)), float(r.uniform(-4, 4)) if r.random() < 0.7 else 0.0)
+        if r.random() < 0.3:
+            shift = (shift[1], shift[0])
     dtype = DTYPES[int(r.choice(len(DTYPES), p=[0.35, 0.25, 0.1, 0.1, 0.1, 0.1]))]
     direction = -1 if r.random() < 0.5 else 1
     precision = 32 if r.random() < 0.15 else 64
@@ -270,6 +290,7 @@ def correspondence(ctx):
         _fft_route(ctx, ft, pr, config)
         _czt_basis(ctx, ft, pr, config)
         _dispatch(ctx, ft, pr, config)
+        _large(ctx, ft, pr, config)
         _histories(ctx, ft, pr, config)
     finally:
         config.precision = 64
@@ -311,8 +332,9 @@ def _transforms(ctx, ft, pr, config):
         # input-distribution histograms (one coarse histogram per quantifier of the property text)
         for hk in (f'shape_parity_in->out:{m % 2}{n % 2}->{M % 2}{N % 2}', f'square:{m == n}',
                    f'size_out_vs_in:{"smaller" if M * N < m * n else "equal" if (M, N) == (m, n) else "larger"}',
-                   'Q:' + ('1' if Q == 1 else 'integer' if isinstance(Q, int) else 'per-axis' if isinstance(Q, tuple) else
-                           'fractional<1' if Q < 1 else 'fractional'),
+                   'Q:' + ('1' if Q == 1 else 'integer' if isinstance(Q, int) else
+                           ('per-axis random real' if len(repr(Q[0])) > 6 else 'per-axis') if isinstance(Q, tuple) else
+                           'random real' if len(repr(Q)) > 6 else 'fractional<1' if Q < 1 else 'fractional'),
                    'shift:' + ('zero' if zero_shift else 'fractional' if any(float(s_) != int(s_) for s_ in shift) else 'integer'),
                    f'dtype:{c["dtype"]}', f'precision:{c["precision"]}', f'direction:{"fwd" if c["dir"] < 0 else "inv"}',
                    f'argument_forms:{"tuples" if not c.get("forms") else "list/array/scalar"}'):
@@ -454,7 +476,13 @@ def _czt_basis(ctx, ft, pr, config):
         v = w2vec(row)
         h, b, a = v[:L], v[L:L + n], v[L + n:]
         try:
-            H, bi, ai = ft._prepare_czt_basis(n, M, L, s, alpha, np.dtype('complex128'), True)
+            H, bi, ai = ft._prepare_czt_basis(N=n, M=M, K=L, shift=s, alpha=alpha, dtype=np.dtype('complex128'), norm=True)
+        except TypeError as ex:
+            if 'argument' in str(ex):      # the private helper changed its signature: nothing to compare against
+                ctx.notes.append(f'_prepare_czt_basis signature changed ({ex}); basis stream skipped')
+                break
+            ctx.disagree('czt_basis', case, f'raised {type(ex).__name__}: {str(ex)[:120]}', 'model returns vectors')
+            continue
         except Exception as ex:
             ctx.disagree('czt_basis', case, f'raised {type(ex).__name__}: {str(ex)[:120]}', 'model returns vectors')
             continue
@@ -466,45 +494,156 @@ def _czt_basis(ctx, ft, pr, config):
                 break
 
 
-def _dispatch(ctx, ft, pr, config):
-    """the propagation-level entry points hand the same arguments to both engines: mdft and czt results coincide"""
-    n_cases = ctx.scale(40, 400)
-    for _ in range(n_cases):
-        r = ctx.rng
-        m, n = int(r.integers(2, 10)), int(r.integers(2, 10))
-        M, N = int(r.integers(1, 11)), int(r.integers(1, 11))
-        c = {'shape': [m, n], 'samples': [M, N], 'dx': float(r.uniform(0.5, 2.0)), 'efl': float(r.uniform(50, 200)),
-             'wvl': float(r.uniform(0.4, 1.0)), 'out_dx': float(r.uniform(2.0, 12.0)),
-             'shift': [float(r.choice([0.0, 1.5, -3.0])), float(r.choice([0.0, 2.25, -1.0]))],
-             'seed': int(r.integers(1 << 30)), 'fn': ['focus_fixed_sampling', 'unfocus_fixed_sampling'][int(r.integers(2))]}
-        f = make_input((m, n), 'complex128', c['seed'])
-        ctx.case('dispatch', c, tag=c['fn'])
-        try:
-            fn = getattr(pr, c['fn'])
-            a = fn(f, c['dx'], c['efl'], c['wvl'], c['out_dx'], (M, N), shift=tuple(c['shift']), method='mdft')
-            b = fn(f, c['dx'], c['efl'], c['wvl'], c['out_dx'], (M, N), shift=tuple(c['shift']), method='czt')
-        except Exception as ex:
-            ctx.pred_fail('dispatch', c, f'raised {type(ex).__name__}: {str(ex)[:160]}')
-            continue
-        ok, err = close(np.abs(b), np.abs(a), TOL64)
+def large_case(r, hi):
+    m, n = int(r.integers(30, hi + 1)), int(r.integers(30, hi + 1))
+    M, N = int(r.integers(20, hi + 1)), int(r.integers(20, hi + 1))
+    q = [float(np.exp(r.uniform(np.log(0.5), np.log(3.0)))) for _ in range(2)]
+    return {'shape': [m, n], 'Q': q[0] if r.random() < 0.5 else q, 'samples': [M, N],
+            'shift': [0, 0] if r.random() < 0.4 else [float(r.uniform(-5, 5)), float(r.uniform(-5, 5))],
+            'dir': -1 if r.random() < 0.5 else 1, 'dtype': ['complex128', 'float64', 'complex64', 'float32'][int(r.integers(4))],
+            'precision': 32 if r.random() < 0.2 else 64, 'seed': int(r.integers(1 << 30))}
+
+
+def _large(ctx, ft, pr, config):
+    """realistic sizes (the Lean oracle is an interpreted O(n^4) sum, so the oracle here is the NumPy double sum `spec2_numpy`):
+    catches edits that only act beyond the small-scope sizes; single-precision tolerance scales with the axis length"""
+    hi = ctx.scale(140, 513)
+    for _ in range(ctx.scale(10, 120)):
+        c = large_case(ctx.rng, hi)
+        for method in ('mdft', 'czt'):
+            cc = dict(c, method=method)
+            ctx.case('large', cc, tag=f'{method}/{c["dtype"]}/p{c["precision"]}')
+            ok, detail = check_transform(cc)
+            if not ok:
+                ctx.pred_fail('transform', cc, detail)
+    for _ in range(ctx.scale(6, 60)):
+        c = {'shape': [int(ctx.rng.integers(30, hi // 2 + 1)), int(ctx.rng.integers(30, hi // 2 + 1))],
+             'Q': [1, 2, 1.5, 1.27][int(ctx.rng.integers(4))], 'dtype': ['complex128', 'complex64'][int(ctx.rng.integers(2))],
+             'seed': int(ctx.rng.integers(1 << 30)), 'dir': -1 if ctx.rng.random() < 0.5 else 1}
+        ctx.case('large', c, tag='fft_route')
+        ok, detail = check_fft(c)
         if not ok:
-            ctx.pred_fail('dispatch', c, f"|method='czt'| != |method='mdft'|: max err {err:.3g}")
-        ok, err = close(b, a, TOL64)
+            ctx.pred_fail('fft_route', c, detail)
+
+
+def dispatch_case(r):
+    """fixed-sampling entry points: random REAL spacings / focal length / wavelength / shifts, non-square shapes; the
+    output spacing is chosen so that the per-axis Q lands in [0.4, 4] (conditioning), which keeps every digit random"""
+    m, n = int(r.integers(1, 10)), int(r.integers(1, 10))
+    M, N = int(r.integers(1, 11)), int(r.integers(1, 11))
+    if r.random() < 0.25:
+        N = M
+    dx, efl, wvl = float(r.uniform(0.3, 3.0)), float(r.uniform(30, 300)), float(r.uniform(0.3, 2.0))
+    q0 = float(np.exp(r.uniform(np.log(0.4), np.log(4.0))))
+    out_dx = wvl * efl / (m * dx * q0)
+    x = r.random()
+    if x < 0.35:
+        shift = [0.0, 0.0]
+    elif x < 0.55:
+        shift = [float(r.uniform(-3, 3)) * out_dx, 0.0] if r.random() < 0.5 else [0.0, float(r.uniform(-3, 3)) * out_dx]
+    else:
+        shift = [float(r.uniform(-3, 3)) * out_dx, float(r.uniform(-3, 3)) * out_dx]
+    return {'fn': ['focus_fixed_sampling', 'unfocus_fixed_sampling'][int(r.integers(2))], 'shape': [m, n], 'samples': [M, N],
+            'dx': dx, 'efl': efl, 'wvl': wvl, 'out_dx': out_dx, 'shift': shift,
+            'samples_form': ['tuple', 'list', 'int'][int(r.integers(3))] if M == N else ['tuple', 'list'][int(r.integers(2))],
+            'dtype': ['complex128', 'float64', 'bool'][int(r.choice(3, p=[0.7, 0.2, 0.1]))], 'seed': int(r.integers(1 << 30))}
+
+
+def dispatch_expect(c):
+    """what the physics says the engines must be asked for: per-axis Q = lambda f / (n_a dx_in dx_out), shift in output samples"""
+    m, n = c['shape']
+    Q = tuple(c['wvl'] * c['efl'] / (s * c['dx'] * c['out_dx']) for s in (m, n))
+    sh = (c['shift'][0] / c['out_dx'], c['shift'][1] / c['out_dx'])
+    return Q, sh, (-1 if c['fn'].startswith('focus') else 1)
+
+
+def dispatch_outputs(c):
+    """every way of making the call: function / Wavefront method x mdft / czt; returns [(label, array or exception, wavefront or None)]"""
+    ft, pr, config = _impl()
+    f = make_input(tuple(c['shape']), c['dtype'], c['seed'])
+    M, N = c['samples']
+    samples = {'tuple': (M, N), 'list': [M, N], 'int': M}[c.get('samples_form', 'tuple')]
+    fn = getattr(pr, c['fn'])
+    space = 'pupil' if c['fn'].startswith('focus') else 'psf'
+    outs = []
+    for method in ('mdft', 'czt'):
+        try:
+            outs.append((f'{c["fn"]}(method={method!r})',
+                         fn(f, c['dx'], c['efl'], c['wvl'], c['out_dx'], samples, shift=tuple(c['shift']), method=method), None))
+        except Exception as ex:
+            outs.append((f'{c["fn"]}(method={method!r})', ex, None))
+        try:
+            wf = pr.Wavefront(np.asarray(f, dtype=complex), c['wvl'], c['dx'], space=space)
+            w = getattr(wf, c['fn'])(c['efl'], c['out_dx'], samples, shift=tuple(c['shift']), method=method)
+            outs.append((f'Wavefront.{c["fn"]}(method={method!r})', w.data, w))
+        except Exception as ex:
+            outs.append((f'Wavefront.{c["fn"]}(method={method!r})', ex, None))
+    return f, outs
+
+
+def check_dispatch(c, verbose=False, oracle=None):
+    """True iff every entry point returns the textbook sum on the PHYSICAL grid (complex at zero shift, modulus otherwise)
+    and the returned Wavefront carries the requested spacing / the right space / the wavelength"""
+    f, outs = dispatch_outputs(c)
+    Q, sh, d = dispatch_expect(c)
+    M, N = c['samples']
+    sp = oracle if oracle is not None else spec2_numpy(f, Q, (M, N), sh, d)
+    zero = c['shift'][0] == 0 and c['shift'][1] == 0
+    for label, out, w in outs:
+        if isinstance(out, Exception):
+            return False, f'{label} raised {type(out).__name__}: {str(out)[:140]}'
+        ok, err = close(out, sp, TOL64) if zero else close(np.abs(out), np.abs(sp), TOL64)
+        if verbose:
+            print(f'  {label}: max error against the textbook sum on the physical grid (Q = {Q[0]:.4g}, {Q[1]:.4g}; shift = '
+                  f'{sh[0]:.4g}, {sh[1]:.4g} samples) {err:.3g}')
+        if not ok:
+            return False, (f'{label}: {"result" if zero else "|result|"} != textbook sum with Q_a = wvl*efl/(n_a*dx*out_dx), '
+                           f'shift/out_dx: max err {err:.3g}')
+        if w is not None:
+            want_space = 'psf' if c['fn'].startswith('focus') else 'pupil'
+            if not (w.dx == c['out_dx'] and w.space == want_space and w.wavelength == c['wvl'] and w.data.shape == (M, N)):
+                return False, f'{label}: returned Wavefront has dx={w.dx}, space={w.space!r}, shape={w.data.shape}'
+    return True, ''
+
+
+def _dispatch(ctx, ft, pr, config):
+    """the propagation-level entry points (functions and Wavefront methods, both engines) against the textbook sum on the
+    PHYSICAL grid: per-axis Q and shift conversion are computed independently here (oracle: Lean `spec2`)"""
+    cases = [dispatch_case(ctx.rng) for _ in range(ctx.scale(80, 800))]
+    lines = []
+    for c in cases:
+        Q, sh, d = dispatch_expect(c)
+        m, n = c['shape']
+        M, N = c['samples']
+        f = make_input((m, n), c['dtype'], c['seed'])
+        lines.append(f'spec2 {d} {m} {n} {M} {N} {C.f2w(Q[0])} {C.f2w(Q[1])} {C.f2w(sh[1])} {C.f2w(sh[0])} {arr2w(f)}')
+    rep = driver_parallel(lines)
+    for c, row in zip(cases, rep):
+        m, n = c['shape']
+        M, N = c['samples']
+        zero = c['shift'] == [0.0, 0.0]
+        ctx.case('dispatch', c, nontrivial=not (m == n == M == N == 1),
+                 tag=f'{c["fn"]}/{"sq" if m == n else "ns"}/{"s0" if zero else "s"}/{c["samples_form"]}')
+        ok, detail = check_dispatch(c, oracle=w2arr(row, M, N))
+        if not ok:
+            ctx.pred_fail('dispatch', c, detail)
+            continue
+        # model: czt2 == dft2 sample for sample (including the phase under a shift)
+        f, outs = dispatch_outputs(c)
+        ok, err = close(outs[2][1], outs[0][1], TOL64)
         if not ok:
             ctx.disagree('dispatch', c, f'czt - mdft = {err:.3g}', 'model: czt2 == dft2 sample for sample')
-        # the Wavefront methods are thin wrappers over the same functions
+        # the Wavefront.focus / unfocus wrappers (FFT route)
         try:
             space = 'pupil' if c['fn'].startswith('focus') else 'psf'
-            wf = pr.Wavefront(f, c['wvl'], c['dx'], space=space)
-            w = getattr(wf, c['fn'])(c['efl'], c['out_dx'], (M, N), shift=tuple(c['shift']), method='czt')
-            q = [1, 2, 1.5][int(r.integers(3))]
+            wf = pr.Wavefront(np.asarray(f, dtype=complex), c['wvl'], c['dx'], space=space)
+            q = [1, 2, 1.5][int(ctx.rng.integers(3))]
             w2 = (wf.focus if space == 'pupil' else wf.unfocus)(c['efl'], Q=q)
-            ref2 = (pr.focus if space == 'pupil' else pr.unfocus)(f, q)
+            ref2 = (pr.focus if space == 'pupil' else pr.unfocus)(np.asarray(f, dtype=complex), q)
+            if not close(w2.data, ref2, TOL64)[0] or w2.space != ('psf' if space == 'pupil' else 'pupil'):
+                ctx.pred_fail('dispatch', c, 'Wavefront.focus / unfocus differ from the functions they wrap')
         except Exception as ex:
-            ctx.pred_fail('dispatch', c, f'Wavefront.{c["fn"]} raised {type(ex).__name__}: {str(ex)[:160]}')
-            continue
-        if not close(w.data, b, TOL64)[0] or not close(w2.data, ref2, TOL64)[0]:
-            ctx.pred_fail('dispatch', c, f'Wavefront.{c["fn"]} / Wavefront.focus differ from the functions they wrap')
+            ctx.pred_fail('dispatch', c, f'Wavefront.focus/unfocus raised {type(ex).__name__}: {str(ex)[:160]}')
 
 
 # ------------------------------------------------------------------------------------------------
@@ -523,9 +662,11 @@ def gen_history(r, length):
     """ops over a small pool of argument sets so that keys repeat; clear() and precision switches interleaved"""
     pool = []
     shp = (int(r.integers(1, 8)), int(r.integers(1, 8)))
-    pool.append({'shape': list(shp), 'Q': [1, 2, 1.5, (1.7, 2.3)][int(r.integers(4))],
+    rq = float(np.exp(r.uniform(np.log(0.4), np.log(4.0))))
+    pool.append({'shape': list(shp), 'Q': [1, 2, 1.5, (1.7, 2.3), rq, (rq, 1.0 + rq / 3)][int(r.integers(6))],
                  'samples': [int(r.integers(1, 9)), int(r.integers(1, 9))],
-                 'shift': list(SHIFTS[int(r.integers(len(SHIFTS)))])})
+                 'shift': list(SHIFTS[int(r.integers(len(SHIFTS)))]) if r.random() < 0.6
+                 else [float(r.uniform(-3, 3)), float(r.uniform(-3, 3))]})
     for _ in range(int(r.integers(1, 5))):
         if r.random() < 0.3:          # an unrelated argument set
             shp = (int(r.integers(1, 8)), int(r.integers(1, 8)))
@@ -558,7 +699,8 @@ def gen_history(r, length):
             ops.append({'op': 'precision', 'value': [32, 64][int(r.integers(2))]})
         else:
             p = pool[int(r.integers(len(pool)))]
-            ops.append(dict(p, op='call', method=['mdft', 'czt'][int(r.integers(2))], dir=-1 if r.random() < 0.5 else 1,
+            ops.append(dict(p, op='call', method=['mdft', 'czt', 'mdft_bp'][int(r.choice(3, p=[0.42, 0.42, 0.16]))],
+                            dir=-1 if r.random() < 0.5 else 1,
                             dtype=['complex128', 'float64', 'complex64'][int(r.choice(3, p=[0.6, 0.25, 0.15]))],
                             seed=int(r.integers(1 << 30))))
     return ops
@@ -581,15 +723,28 @@ def run_history(ops, ft, config, collect=None):
             config.precision = prec
         else:
             shp, Q, MN, shift = case_args(op)
+            if op['method'] == 'mdft_bp':
+                # fbar lives in the output plane (shape `samples`); the other plane's shape is the `samples_in` argument
+                # (handed over as an int when that plane is square, on every other case)
+                shp, MN = MN, (shp[0] if (shp[0] == shp[1] and op['seed'] % 2 == 0) else shp)
             f = make_input(shp, op['dtype'], op['seed'])
+            f0 = f.copy()
             try:
-                got = call_impl(op['method'], op['dir'], f, Q, MN, shift, forms=op.get('forms'))
-                want = call_impl(op['method'], op['dir'], f, Q, MN, shift, fresh=True, forms=op.get('forms'))
+                if op['method'] == 'mdft_bp' and not isinstance(MN, tuple):
+                    ex_ = ft.mdft
+                    got = (ex_.dft2_backprop if op['dir'] < 0 else ex_.idft2_backprop)(f, Q, MN, shift)
+                    ex_ = ft.MatrixDFTExecutor()
+                    want = (ex_.dft2_backprop if op['dir'] < 0 else ex_.idft2_backprop)(f, Q, MN, shift)
+                else:
+                    got = call_impl(op['method'], op['dir'], f, Q, MN, shift, forms=op.get('forms'))
+                    want = call_impl(op['method'], op['dir'], f, Q, MN, shift, fresh=True, forms=op.get('forms'))
+                if not np.array_equal(f, f0):
+                    fail = fail or f'op {idx} ({op["method"]}): the input array was modified in place'
             except Exception as ex:
                 fail = fail or f'op {idx}: raised {type(ex).__name__}: {str(ex)[:120]}'
                 sizes.append((len(ft.mdft.Ein), len(ft.czt.components)))
                 continue
-            lowp = prec == 32 if op['method'] == 'mdft' else op['dtype'] == 'complex64'
+            lowp = prec == 32 if op['method'] in ('mdft', 'mdft_bp') else op['dtype'] == 'complex64'
             ok, err = close(got, want, 1e-5 if lowp else 1e-10)
             if got.dtype != want.dtype:
                 fail = fail or f'op {idx}: dtype {got.dtype} on the shared executor, {want.dtype} on a fresh one'
@@ -627,6 +782,10 @@ def systematic_histories():
                 b = dict(a, forms=fm)
                 hs.append([a, b])
                 hs.append([b, a])
+        if method == 'mdft':
+            for d in (-1, 1):
+                hs.append([dict(base, op='call', method='mdft', dir=d), dict(base, op='call', method='mdft_bp', dir=d)])
+                hs.append([dict(base, op='call', method='mdft_bp', dir=d), dict(base, op='call', method='mdft', dir=d)])
         variants = []
         for ax in (0, 1):
             for key, val in (('shape', 6), ('samples', 7), ('shift', 1.5), ('Q', 2.37)):
@@ -661,7 +820,7 @@ def _histories(ctx, ft, pr, config):
                     toks.append(None)
                 elif op['op'] == 'clear':
                     toks.append('C' if op['which'] == which else None)
-                elif op['method'] == which:
+                elif op['method'] == which or (which == 'mdft' and op['method'] == 'mdft_bp'):
                     shp, Q, MN, shift = case_args(op)
                     dt = str(make_input((1, 1), op['dtype'], 0).dtype)
                     key = _norm_key(which, op['dir'] if which == 'mdft' else -1, shp, Q, MN, shift, prec, dt)
@@ -680,9 +839,16 @@ def _histories(ctx, ft, pr, config):
                 cur = int(next(it).split(':')[1])
             have = sizes[idx][0 if which == 'mdft' else 1]
             if have != cur:
-                ctx.disagree('cache', {'ops': ops, 'executor': which}, f'{have} cached entries after op {idx}',
-                             f'{cur} (model: one entry per distinct key incl. precision/dtype)')
+                # the granularity of the cache is an implementation choice (per-axis caching, bounded caches ...): the property
+                # speaks about RESULTS, which the comparison with a fresh executor above covers; record, do not alarm
+                msg = (f'cache model: executor {which} holds {have} entries where the model (one entry per distinct key incl. '
+                       f'precision/dtype) has {cur}')
+                if msg not in ctx.notes and len(ctx.notes) < 20:
+                    ctx.notes.append(msg)
+                ctx.hist['cache_model:entry_count_differs'] += 1
                 break
+        else:
+            ctx.hist['cache_model:entry_count_agrees'] += 1
 
 
 # ------------------------------------------------------------------------------------------------
@@ -739,7 +905,7 @@ def check_fft(c, verbose=False):
     if (M, N) != (int(np.ceil(m * c['Q'])), int(np.ceil(n * c['Q']))):
         return False, f'padded shape {M, N}'
     sp = spec2_numpy(f, (M / m, N / n), (M, N), (0, 0), c['dir'])
-    ok, err = close(out, sp, tol_for(c))
+    ok, err = close(out, sp, tol_for(dict(c, samples=[M, N])))
     if verbose:
         print(f'  {"focus" if c["dir"] < 0 else "unfocus"} {m}x{n} Q={c["Q"]} -> {M}x{N}: max error against the textbook sum {err:.3g}')
     return ok, f'padded FFT != textbook sum on its own grid: max err {err:.3g}'
@@ -849,6 +1015,8 @@ def _violates(inp):
         return not check_fft(c)[0]
     if item == 'history':
         return run_history(c['ops'], ft, config)[0] is not None
+    if item == 'dispatch':
+        return not check_dispatch(c)[0]
     return False
 
 
@@ -880,16 +1048,9 @@ def replay(inp):
         print('  ', fail or 'every call returned what a fresh executor returns')
         return fail is not None
     if item == 'dispatch':
-        f = make_input(tuple(c['shape']), 'complex128', c['seed'])
-        fn = getattr(pr, c['fn'])
-        try:
-            a = fn(f, c['dx'], c['efl'], c['wvl'], c['out_dx'], tuple(c['samples']), shift=tuple(c['shift']), method='mdft')
-            b = fn(f, c['dx'], c['efl'], c['wvl'], c['out_dx'], tuple(c['samples']), shift=tuple(c['shift']), method='czt')
-        except Exception as ex:
-            print('  raised', type(ex).__name__, ex)
-            return True
-        ok, err = close(np.abs(b), np.abs(a), TOL64)
-        print(f'  | |czt| - |mdft| | max = {err:.3g}')
+        ok, detail = check_dispatch(c, verbose=True)
+        if not ok:
+            print(' ', detail)
         return not ok
     print('no replay routine for item', item)
     return False
